@@ -6,10 +6,10 @@ from checks import _json
 
 META = {
     "property_id": "C08",
-    "technique": "Lean 4 theorems on the Stringify model (as-coded trailing-comma patch = reference serializer for every tree; Escape output is RFC well-escaped; UnEscape∘Escape = id) + correspondence with Value::Stringify + round-trip / RFC oracle on the real code",
+    "technique": "Lean 4 theorems on the Stringify model (as-coded trailing-comma patch = reference serializer for every tree; Escape output is RFC well-escaped; UnEscape∘Escape = id; full round trip at 17 digits composed from C10 format_eq_spec, C11 roundtrip17, the StringToNumber relocation theorem and C06 parse_print) + correspondence with Value::Stringify + round-trip / RFC oracle on the real code",
     "level": "proof",
     "design_ref": "DESIGN.md §6 C08",
-    "text": "Kernel-checked: parse(stringify v) = v (pointers looked through, Undefined members dropped) for EVERY tree without real numbers, every width and precision, through the linked models of serializer, escaper, integer formatter, un-escaper, integer reader and parser (roundtrip_int_linked). Also for every tree (any nesting, Undefined and pointer members anywhere, any number formatter): the serializer as coded — which writes a comma after every member and then patches the last unit of the stream — produces exactly the comma-separated reference text with Undefined members omitted (strValue_eq); for every string over all code units the escaped body contains no unit below 0x20, no bare quote or backslash and only RFC escapes (escapeJson_wellEscaped) and un-escaping it gives the string back. The full round trip additionally needs the number round trip (C11) and is checked on the real code on every run: generated trees built through the public API (removed members, pointer members, all code units, numeric extremes, -0) are stringified with 17 digits, parsed back and compared, stringify∘parse∘stringify is compared for a fixed point, and the text is given to an independent strict JSON reader when strings are well-formed Unicode.",
+    "text": "Kernel-checked: parse(stringify_17 v) = v for EVERY value tree with finite numbers (roundtrip_linked): any nesting, Undefined and pointer members anywhere (dropped / looked through), strings over all code units, unsigned and signed 64-bit integers, every finite double incl. subnormals, both zeros and exponent texts; every character width; through the linked models of serializer, escaper, NumberToString (integer and real path), un-escaper, StringToNumber and parser. A real comes back as the number StringToNumber finds in its %.17g text: a Real with the same bits, or, when the text is an integer numeral (5.0 -> 5), the Natural/Integer of the same value (real_value_preserved: its double(.) conversion is the original double); nothing else changes (normR_is_normI_relabelled). Trees without reals: every precision (roundtrip_int_linked). Also for every tree and any number formatter: the serializer as coded - a comma after every member, then the last unit of the stream patched - produces exactly the comma-separated reference text with Undefined members omitted (strValue_eq); escaped bodies contain no unit below 0x20, no bare quote or backslash and only RFC escapes, and un-escaping gives the string back. On every run the same is exercised on the real code: generated trees built through the public API (removed members, pointer members, all code units, numeric extremes, -0) are stringified with 17 digits, parsed back and compared, stringify.parse.stringify is compared for a fixed point, and the text is given to an independent strict JSON reader when strings are well-formed Unicode.",
     "note": "Trusted: Lean kernel; axioms ⊆ {propext, Quot.sound, Classical.choice}; correspondence harness; python's json module as independent RFC 8259 reader (validation). Top-level scalars print nothing by design of Value::Stringify and are outside the quantifier (container trees).",
 }
 
@@ -24,9 +24,14 @@ THEOREMS = [
     "Qentem.Props.C08.roundtrip_int_linked",
     "Qentem.Json.numFmt_decimal",
     "Qentem.Json.roundtrip_int",
+    "Qentem.Props.C08.roundtrip_linked",
+    "Qentem.Props.C08.real_value_preserved",
+    "Qentem.Props.C08.normR_is_normI_relabelled",
+    "Qentem.Json.roundtrip_real",
+    "Qentem.Json.linkedFmt_real17",
 ]
 MODEL_STRINGIFY = False   # the driver's `jsstr` needs the number formatter model (C10 area)
-OPEN = ["Qentem.Props.C08.RoundTrip (parse (stringify v) = normalize v for reals) — depends on C11's RoundTrip17"]
+OPEN = ["precisions other than 17 for trees with reals (fewer digits do not identify a double, so parse(stringify_p v) = v is false there by design; more digits are outside C11); non-finite doubles (Stringify writes inf/nan, which is not JSON)"]
 
 SPECIAL_REALS = [0x0000000000000000, 0x8000000000000000, 0x3FF0000000000000, 0x0000000000000001, 0x000FFFFFFFFFFFFF, 0x0010000000000000,
                  0x7FEFFFFFFFFFFFFF, 0xFFEFFFFFFFFFFFFF, 0x3FB999999999999A, 0x4340000000000000, 0x43E0000000000000, 0x43F0000000000000,
